@@ -3,18 +3,18 @@
  * redirected by macro to these stubs; the real source text is unchanged.
  *   - memory safety of the call is checked exactly: source readable and destination writable for n octets
  *     (plus, for memcpy, no overlap);
- *   - the destination is then HAVOCKED, and only the octets at relative positions 0,1,2,3 and g_mem_k (an arbitrary
- *     witness index fixed before the run) receive the source octets.
+ *   - the destination is then HAVOCKED, and only the octets at relative positions 0,1,2,3, g_mem_k and g_mem_k2 receive the source octets (g_mem_k / g_mem_k2: two arbitrary
+ *     witness indices fixed before the run - a copy followed by a move needs one for each).
  * This over-approximates the real functions (every real behaviour is included); what is proved about the octets at the
  * witness positions holds for every position because g_mem_k is arbitrary.                               [ASSUMED: libc] */
 #ifndef ENV_MEMOPS_WITNESS_H
 #define ENV_MEMOPS_WITNESS_H
 #include <string.h>
-size_t g_mem_k;    /* never written */
+size_t g_mem_k, g_mem_k2;    /* two arbitrary witness positions, never written */
 
 static void *ksi_env_memmove(void *dst, const void *src, size_t n) {
 	unsigned char *d = dst; const unsigned char *s = src;
-	unsigned char b0 = 0, b1 = 0, b2 = 0, b3 = 0, bk = 0;
+	unsigned char b0 = 0, b1 = 0, b2 = 0, b3 = 0, bk = 0, bk2 = 0;
 	__CPROVER_assert(__CPROVER_r_ok(src, n), "memmove/memcpy: source readable for n octets");
 	__CPROVER_assert(__CPROVER_w_ok(dst, n), "memmove/memcpy: destination writable for n octets");
 	if (n > 0) b0 = s[0];
@@ -22,12 +22,14 @@ static void *ksi_env_memmove(void *dst, const void *src, size_t n) {
 	if (n > 2) b2 = s[2];
 	if (n > 3) b3 = s[3];
 	if (n > g_mem_k) bk = s[g_mem_k];
+	if (n > g_mem_k2) bk2 = s[g_mem_k2];
 	if (n > 0) __CPROVER_havoc_slice(d, n);
 	if (n > 0) d[0] = b0;
 	if (n > 1) d[1] = b1;
 	if (n > 2) d[2] = b2;
 	if (n > 3) d[3] = b3;
 	if (n > g_mem_k) d[g_mem_k] = bk;
+	if (n > g_mem_k2) d[g_mem_k2] = bk2;
 	return dst;
 }
 static void *ksi_env_memcpy(void *dst, const void *src, size_t n) {
